@@ -63,7 +63,7 @@ CLAIMED["C10"] = dict(
    ref="DESIGN.md §6 C10",
    note="Trusts: the reference run (as compiled, fresh environment, fair schedule) as ground truth, the harness re-implementation of `quiv run`/`quiv compile`. The evidence reports history-leg and configuration-leg run counts separately.",
    technique="deterministic simulation: merge-history and schedule search with a reference execution; packaging options as sampled configuration")
-PENDING = {k: 'claimed in DESIGN.md; check under construction in this revision (not yet registered)' for k in ['C10']}
+PENDING = {}
 
 def main():
     checks = []
